@@ -297,8 +297,8 @@ type guardedField struct {
 func guardedByTable() []guardedField {
 	return []guardedField{
 		{"cache", "SubCache", "excerpts", "mu", map[string]string{
-			"cache.NewSubCache":        "constructor",
-			"cache.SubCache.Build$1":   "runs before the cache is published (load-or-build at open)",
+			"cache.NewSubCache":      "constructor",
+			"cache.SubCache.Build$1": "runs before the cache is published (load-or-build at open)",
 		}},
 		{"cache", "SubCache", "cached", "mu", map[string]string{
 			"cache.NewSubCache":      "constructor",
